@@ -55,6 +55,13 @@ class VFun:
 
 
 @dataclass
+class VPartial:       # functools.partial(fn, *args, **kw)
+    fn: Any
+    args: list
+    kw: dict
+
+
+@dataclass
 class VDict:
     d: dict
 
@@ -232,7 +239,7 @@ class Interp:
             if v.sh == EPS:
                 return False
             return None
-        if isinstance(v, (VObj, VFun, VCls)):
+        if isinstance(v, (VObj, VFun, VCls, VPartial)):
             return True
         if isinstance(v, VTuple):
             return bool(v.items)
